@@ -233,12 +233,21 @@ end
 
 /-! ## agreement on printed values, leaf targets -/
 
+/-- numbers of the text leg: an integer of any size (`PosInt` / a negative `NegInt`: the typed integer targets include
+    the 128-bit ones, whose values a `Value` cannot hold but a typed value can) or a finite float; no literal
+    (`arbitrary_precision`) -/
+def wfNumW : Num → Bool
+  | .pos _ => true
+  | .neg i => decide (i < 0)
+  | .float b => Spec.Program.finite64 b
+  | .lit _ => false
+
 mutual
 /-- `Spec.WF.shapeOK {}` without the condition on the order of the keys (the text leg reads members in the order
     they are written, and so does `from_value`): numbers as `Number` holds them without `arbitrary_precision`,
     strings and keys valid UTF-8 -/
 def shapeW : JV → Bool
-  | .num n => Spec.WF.wfNum {} n
+  | .num n => wfNumW n
   | .str s => Spec.Utf8.validUtf8 s
   | .arr xs => shapeWs xs
   | .obj kvs => shapeWm kvs
@@ -255,7 +264,8 @@ omit hext in
 mutual
 theorem shapeW_of_shapeOK : ∀ v : JV, Spec.WF.shapeOK {} v = true → shapeW v = true
   | .null, _ | .bool _, _ => rfl
-  | .num n, h => by simpa [shapeW, Spec.WF.shapeOK] using h
+  | .num n, h => by
+    cases n <;> simp_all [shapeW, wfNumW, Spec.WF.shapeOK, Spec.WF.wfNum]
   | .str s, h => by simpa [shapeW, Spec.WF.shapeOK] using h
   | .arr xs, h => by
     simp only [shapeW, Spec.WF.shapeOK] at h ⊢
@@ -305,10 +315,10 @@ theorem T_head (v : JV) (hv : VOK v) : ∃ c tl, T ext v = c :: tl ∧ HeadOf v 
     cases n with
     | pos n => obtain ⟨c, tl, h, hc, _⟩ := natDigits_shape n; exact ⟨c, tl, by rw [T_pos ext hext, h], hc⟩
     | neg i =>
-      have hi : i < 0 := by have := hv.1; simp [shapeW, Spec.WF.wfNum] at this; exact this.2
+      have hi : i < 0 := by have := hv.1; simp [shapeW, wfNumW] at this; exact this
       exact ⟨_, _, T_neg ext hext i hi, rfl⟩
     | float b => have := hv.2; simp [Spec.WF.noFloat] at this
-    | lit s => have := hv.1; simp [shapeW, Spec.WF.wfNum] at this
+    | lit s => have := hv.1; simp [shapeW, wfNumW] at this
   | str s => obtain ⟨tl, h⟩ := T_str ext s; exact ⟨_, tl, h, rfl⟩
   | arr xs => exact ⟨_, _, T_arr ext xs, rfl⟩
   | obj kvs => obtain ⟨tl, h⟩ := T_obj ext kvs; exact ⟨_, tl, h, rfl⟩
@@ -381,6 +391,27 @@ theorem parserNumber_neg (env : Env) (m : Nat) (h0 : 0 < m) (hm : m ≤ 2 ^ 63) 
     simp [intClass, mkParts, SJ.Proofs.RoundTripNum.natOfDigits_natDigits, this, hm]
   have := conv_of_intClass_some env _ (SJ.Proofs.RoundTripNum.isDigits_natDigits m) _ hic
   rw [parserNumber_eq, this]
+
+omit hext in
+/-- a literal that the parser does not class as `U64` / `I64` never satisfies an integer visitor -/
+theorem visit_notInt (env : Env) (w : IntTy) (parts : Parts) (rest' : Bytes) (pos' : Nat) (h : NotInt (conv env parts)) :
+    ∀ x r p, (match parserNumber env parts with
+      | some n => fixPos env true (ofVisit (visitNumber (.int w) n) rest' pos')
+      | none => (.err .NumberOutOfRange (peekErrorIdx rest' pos') : TOut)) ≠ .ok x r p := by
+  intro x r p
+  rw [parserNumber_eq]
+  cases hc : conv env parts with
+  | u64 k => exact absurd hc (h.1 k)
+  | i64 k => exact absurd hc (h.2 k)
+  | f64 b => simp [visitNumber, FromValue.numberInt, ofVisit, fixPos, FromValue.fail]
+  | outOfRange => simp
+  | outOfFuel => simp
+
+omit hext in
+theorem small_of_inRange (w : IntTy) (h128 : ¬ is128 w = true) (x : Int) (hr : w.inRange x = true) :
+    -(2 ^ 63 : Int) ≤ x ∧ x < 2 ^ 64 := by
+  cases w <;> simp [is128, IntTy.bits] at h128 <;>
+    (simp [IntTy.inRange, IntTy.lo, IntTy.hi, IntTy.signed, IntTy.bits] at hr; omega)
 
 section
 variable {env : Env} (hflt : env.flt = false) (cfg' : FromValue.Cfg) (hap : cfg'.ap = false) (ext' : FromValue.Ext)
@@ -481,14 +512,11 @@ theorem agree_int (w : IntTy) (v : JV) (hv : VOK v) : Agree1 (deInt env w) (From
   | num n =>
     cases n with
     | pos n =>
-      have hn : n < 2 ^ 64 := by have := hv.1; simpa [shapeW, Spec.WF.wfNum] using this
       simp only [FromValue.fromValue, FromValue.deInt, FromValue.numberInt, hap, Bool.false_eq_true, if_false, visitInt_eq]
       rw [T_pos ext hext] at hT ⊢
       -- what the typed side computes
-      have key : deInt env w (natDigits n ++ rest) pos =
-          if w.inRange (n : Int) then .ok (.int n) rest (pos + (natDigits n).length)
-          else if is128 w then .err .NumberOutOfRange (errorIdx env rest (pos + (natDigits n).length) true)
-          else .data (errorIdx env rest (pos + (natDigits n).length) true) := by
+      have key : ∃ e : TOut, (∀ x r p, e ≠ .ok x r p) ∧ deInt env w (natDigits n ++ rest) pos =
+          if w.inRange (n : Int) then .ok (.int n) rest (pos + (natDigits n).length) else e := by
         unfold deInt
         split
         · rw [hT]
@@ -503,9 +531,11 @@ theorem agree_int (w : IntTy) (v : JV) (hv : VOK v) : Agree1 (deInt env w) (From
             (by rw [hT]; simp)
           simp only [Bool.false_eq_true, if_false] at this
           rw [this, SJ.Proofs.RoundTripNum.natOfDigits_natDigits, ← hT]
+          refine ⟨.err .NumberOutOfRange (errorIdx env rest (pos + (natDigits n).length) true), by simp, ?_⟩
           simp only [FromValue.rangeChecked]
-          by_cases hr : w.inRange (n : Int) = true <;> simp [hr, ‹is128 w = true›]
-        · rw [hT]
+          by_cases hr : w.inRange (n : Int) = true <;> simp [hr]
+        · rename_i h128
+          rw [hT]
           simp only [List.cons_append]
           unfold deNumber
           rw [withPeek_cons env _ hw]
@@ -514,19 +544,32 @@ theorem agree_int (w : IntTy) (v : JV) (hv : VOK v) : Agree1 (deInt env w) (From
           simp only [ht.2.2.2.2.1, Bool.false_eq_true, if_false]
           rw [show c :: (tl ++ rest) = natDigits n ++ rest by rw [hT]; rfl]
           rw [scanInteger_natDigits hflt false n rest pos hs]
-          simp only [Res.bind, hfr, Bool.false_eq_true, if_false, parserNumber_pos env n hn, visitNumber, FromValue.numberInt, visitInt_eq, ← hT]
-          by_cases hr : w.inRange (n : Int) = true <;> simp [hr, ofVisit, fixPos, FromValue.fail, ‹¬is128 w = true›]
+          simp only [Res.bind, hfr, Bool.false_eq_true, if_false]
+          by_cases hn : n < 2 ^ 64
+          · simp only [parserNumber_pos env n hn, visitNumber, FromValue.numberInt, visitInt_eq, ← hT]
+            refine ⟨.data (errorIdx env rest (pos + (natDigits n).length) true), by simp, ?_⟩
+            by_cases hr : w.inRange (n : Int) = true <;> simp [hr, ofVisit, fixPos, FromValue.fail]
+          · have hr : w.inRange (n : Int) = false := by
+              cases hr' : w.inRange (n : Int) with
+              | false => rfl
+              | true => have := (small_of_inRange w h128 _ hr').2; omega
+            have hni : NotInt (conv env (mkParts false (natDigits n) none none)) :=
+              conv_of_intClass_none env _ rfl rfl (SJ.Proofs.RoundTripNum.isDigits_natDigits n) (by
+                simp [intClass, mkParts, SJ.Proofs.RoundTripNum.natOfDigits_natDigits, hn])
+            refine ⟨_, visit_notInt env w _ rest (pos + (natDigits n).length) hni, ?_⟩
+            simp only [hr, Bool.false_eq_true, if_false]
+            rfl
+      obtain ⟨e, he, hk⟩ := key
       by_cases hr : w.inRange (n : Int) = true
-      · simp only [hr, if_true] at key ⊢
-        exact key
-      · simp only [hr, Bool.false_eq_true, if_false, FromValue.fail] at key ⊢
-        intro x r p
-        rw [key]
-        split <;> simp
+      · simp only [hr, if_true] at hk ⊢
+        exact hk
+      · simp only [hr, Bool.false_eq_true, if_false, FromValue.fail] at hk ⊢
+        rw [hk]
+        exact he
     | neg i =>
-      have hi : -(2 ^ 63 : Int) ≤ i ∧ i < 0 := by have := hv.1; simpa [shapeW, Spec.WF.wfNum] using this
+      have hi : i < 0 := by have := hv.1; simpa [shapeW, wfNumW] using this
       simp only [FromValue.fromValue, FromValue.deInt, FromValue.numberInt, hap, Bool.false_eq_true, if_false, visitInt_eq]
-      have hT' := T_neg ext hext i hi.2
+      have hT' := T_neg ext hext i hi
       rw [hT']
       have hmi : (-(i.natAbs : Int)) = i := by omega
       have key : ∃ e : TOut, (∀ x r p, e ≠ .ok x r p) ∧ deInt env w (0x2d :: natDigits i.natAbs ++ rest) pos =
@@ -554,18 +597,32 @@ theorem agree_int (w : IntTy) (v : JV) (hv : VOK v) : Agree1 (deInt env w) (From
               have hlo : w.lo = 0 := by simp [IntTy.lo, hsg]
               simp [IntTy.inRange, hlo]; omega
             exact ⟨.err .NumberOutOfRange (pos + 1), by simp, by simp [this]⟩
-        · simp only [List.cons_append]
+        · rename_i h128
+          simp only [List.cons_append]
           unfold deNumber
           rw [withPeek_cons env _ (by decide)]
           simp only [show isNumStart 0x2d = true by decide, if_true]
           unfold scanNumber
           simp only [beq_self_eq_true, if_true]
           rw [scanInteger_natDigits hflt true i.natAbs rest (pos + 1) hs]
-          have hpn := parserNumber_neg env i.natAbs (by omega) (by omega)
-          rw [hmi] at hpn
-          simp only [Res.bind, hfr, Bool.false_eq_true, if_false, hpn, visitNumber, FromValue.numberInt, visitInt_eq, List.length_cons]
-          refine ⟨.data (errorIdx env rest (pos + 1 + (natDigits i.natAbs).length) true), by simp, ?_⟩
-          by_cases hr : w.inRange i = true <;> simp [hr, ofVisit, fixPos, FromValue.fail] <;> omega
+          simp only [Res.bind, hfr, Bool.false_eq_true, if_false]
+          by_cases hsm : i.natAbs ≤ 2 ^ 63
+          · have hpn := parserNumber_neg env i.natAbs (by omega) hsm
+            rw [hmi] at hpn
+            simp only [hpn, visitNumber, FromValue.numberInt, visitInt_eq, List.length_cons]
+            refine ⟨.data (errorIdx env rest (pos + 1 + (natDigits i.natAbs).length) true), by simp, ?_⟩
+            by_cases hr : w.inRange i = true <;> simp [hr, ofVisit, fixPos, FromValue.fail] <;> omega
+          · have hr : w.inRange i = false := by
+              cases hr' : w.inRange i with
+              | false => rfl
+              | true => have := (small_of_inRange w h128 _ hr').1; omega
+            have hni : NotInt (conv env (mkParts true (natDigits i.natAbs) none none)) :=
+              conv_of_intClass_none env _ rfl rfl (SJ.Proofs.RoundTripNum.isDigits_natDigits _) (by
+                have h0 : (i.natAbs == 0) = false := by simp; omega
+                simp [intClass, mkParts, SJ.Proofs.RoundTripNum.natOfDigits_natDigits, h0, hsm])
+            refine ⟨_, visit_notInt env w _ rest (pos + 1 + (natDigits i.natAbs).length) hni, ?_⟩
+            simp only [hr, Bool.false_eq_true, if_false]
+            rfl
       obtain ⟨e, he, hk⟩ := key
       simp only [List.cons_append] at hk ⊢
       by_cases hr : w.inRange i = true
